@@ -118,6 +118,8 @@ def check_circuit(recipe, env, maxph, acc, late=False):
         ("list_good_then_long", lambda: sim.simulate([lw.State(good), lw.State(good + [0])], [lw.State(good)])),
         ("outputs_good_then_short", lambda: sim.simulate(lw.State(good), [lw.State(good), lw.State(good[:-1])])) if nv else None,
         ("mixed_photon_inputs", lambda: sim.simulate([lw.State(good), lw.State([2] + good[1:])])) if nv else None,
+        ("mixed_inputs_with_matching_mixed_outputs",
+         lambda: sim.simulate([lw.State(good), lw.State([2] + good[1:])], [lw.State(good), lw.State([2] + good[1:])])) if nv else None,
         ("in_out_photon_mismatch", lambda: sim.simulate(lw.State(good), [lw.State([2] + good[1:])])) if nv else None,
         ("output_wrong_length", lambda: sim.simulate(lw.State(good), [lw.State(good + [0])])),
         ("output_not_state", lambda: sim.simulate(lw.State(good), [good])),
